@@ -3672,8 +3672,11 @@ def _fix_duplicate_regular_imports(source: str) -> str:
                     removals.add(node)
 
     if replacements or removals:
-        source = processing.alter_code(source, root, replacements=replacements, removals=removals)
-        return _fix_duplicate_regular_imports(source)
+        new_source = processing.alter_code(
+            source, root, replacements=replacements, removals=removals
+        )
+        if new_source != source:  # Replacements may be refused, e.g. because of pyrefact: ignore
+            return _fix_duplicate_regular_imports(new_source)
 
     return source
 
